@@ -53,7 +53,8 @@ type gidKey struct{}
 
 // q1 goes through QueryContext, q2 through ExecContext (direct and in a transaction: all four
 // eviction sites of prepare_stmt.go)
-var texts = map[string]string{"q1": "SELECT v FROM ps WHERE id = ?", "q2": "SELECT id FROM ps WHERE v = ?"}
+// q3 (storms only) goes through QueryRowContext
+var texts = map[string]string{"q1": "SELECT v FROM ps WHERE id = ?", "q2": "SELECT id FROM ps WHERE v = ?", "q3": "SELECT v + 1 FROM ps WHERE id = ?"}
 
 // gate is the scheduler: goroutines park at instrumentation points until released.
 type gate struct {
@@ -307,7 +308,14 @@ func (w *world) op(gi int) (res string) {
 		if w.gate != nil {
 			w.gate.park(fmt.Sprintf("g%d", gi), "tx:begun")
 		}
-		if p.Q == "q2" {
+		if p.Q == "q3" {
+			var v int64
+			err = tx.QueryRowContext(ctx, texts[p.Q], 1).Scan(&v)
+			if err == nil && v != 11 {
+				tx.Rollback()
+				return fmt.Sprintf("wrongrow:%d", v)
+			}
+		} else if p.Q == "q2" {
 			_, err = tx.ExecContext(ctx, texts[p.Q], 1)
 		} else {
 			var rows *sql.Rows
@@ -328,6 +336,14 @@ func (w *world) op(gi int) (res string) {
 	}
 	if p.Q == "q2" {
 		_, err := w.pdb.ExecContext(ctx, texts[p.Q], 1)
+		return classify(err)
+	}
+	if p.Q == "q3" {
+		var v int64
+		err := w.pdb.QueryRowContext(ctx, texts[p.Q], 1).Scan(&v)
+		if err == nil && v != 11 {
+			return fmt.Sprintf("wrongrow:%d", v)
+		}
 		return classify(err)
 	}
 	rows, err := w.pdb.QueryContext(ctx, texts[p.Q], 1)
@@ -654,11 +670,12 @@ func stormCmd(args []string) error {
 			w.track(point, args...)
 		}
 	}
+	ndead := 0
 	for i := 0; i < *n; i++ {
 		ng := 2 + r.Intn(7)
 		plans := make([]Plan, ng)
 		for k := range plans {
-			plans[k] = Plan{Q: []string{"q1", "q2"}[r.Intn(2)], Tx: r.Intn(3) == 0, Prep: "ok", Use: "ok"}
+			plans[k] = Plan{Q: []string{"q1", "q2", "q3"}[r.Intn(3)], Tx: r.Intn(3) == 0, Prep: "ok", Use: "ok"}
 			if r.Intn(6) == 0 {
 				plans[k].Prep = "fail"
 			}
@@ -667,7 +684,7 @@ func stormCmd(args []string) error {
 			}
 		}
 		admin := []string{"none", "reset", "close", "reset"}[r.Intn(4)]
-		conns := []int{0, 0, 1, 2, 3}[r.Intn(5)]
+		conns := []int{0, 1, 1, 2, 3}[r.Intn(5)]
 		if fx != nil {
 			plans, admin, ng, conns = fx.Plan, fx.Admin, len(fx.Plan), fx.Conns
 		}
@@ -676,6 +693,14 @@ func stormCmd(args []string) error {
 			return err
 		}
 		cur.Store(w)
+		// half of the storms start with a warm cache: every text was used once outside a transaction
+		if r.Intn(2) == 0 {
+			for _, name := range []string{"q1", "q2", "q3"} {
+				if rows, err := w.pdb.QueryContext(context.Background(), texts[name], 1); err == nil {
+					rows.Close()
+				}
+			}
+		}
 		res := make([]string, ng)
 		var wg sync.WaitGroup
 		start := make(chan struct{})
@@ -717,6 +742,14 @@ func stormCmd(args []string) error {
 		w.pool.mu.Lock()
 		prepares := map[string]int{"q1": w.pool.ok[texts["q1"]], "q2": w.pool.ok[texts["q2"]]}
 		w.pool.mu.Unlock()
+		if fx != nil && (deadlock || leaked > 0) {
+			*n = i // a fixed configuration is re-run to reproduce: one failing run is enough
+		}
+		if deadlock {
+			if ndead++; ndead >= 3 {
+				*n = i // three deadlocked runs (10 s each) say enough
+			}
+		}
 		wr.Emit(hx.M{"ev": "Storm", "case": i + 1, "plan": plans, "admin": admin, "conns": conns, "resets": resets, "res": res, "prepares": prepares,
 			"leaked": leaked, "deadlock": deadlock})
 	}
